@@ -23,7 +23,7 @@
 (* TraceChan.tla validates the hook events recorded from the real library  *)
 (* against the same state and invariants.                                  *)
 (***************************************************************************)
-EXTENDS Naturals, Sequences, FiniteSets, TLC
+EXTENDS Naturals, Sequences, FiniteSets, TLC, SequencesExt
 
 CONSTANTS
   Threads,      \* producer threads
@@ -277,6 +277,42 @@ TypeOK ==
   /\ cph \in {"idle", "pop", "abandon", "repop", "process"}
   /\ cph \in {"pop", "abandon", "repop"} => ci \in 1..Len(reg)
   /\ \A t \in Threads : tst[t] \in {"unborn", "starting", "live", "exiting", "dead"}
+
+----------------------------------------------------------------------------
+(* Refinement: the grain of Fastrace.tla.                                                              *)
+(* Fastrace.tla has two collector steps per receiver: Col/drain ("take everything present and observe  *)
+(* empty") and Col/check (read the abandoned bit: keep, look once more, or remove).  Under the mapping  *)
+(* below every step of this module is such a coarse step or leaves the coarse state unchanged: the      *)
+(* successful pops of a drain commute to the moment of its empty pop (what a producer pushes meanwhile  *)
+(* is appended behind what has been popped).  TLC checks CoarseSpec as a property of Spec.             *)
+ringC == [t \in Threads |-> IF cph = "pop" /\ reg[ci] = t THEN part \o ring[t] ELSE ring[t]]
+batchC == IF cph = "pop" THEN batch ELSE batch \o part
+cphC == CASE cph = "idle" -> "idle" [] cph = "process" -> "process" [] cph = "pop" /\ ~second -> "drain" [] OTHER -> "check"
+coarseVars == <<ringC, batchC, cphC, reg, ci, consumed, destroyed, own>>
+Without(r, i) == [j \in 1..(Len(r) - 1) |-> IF j < i THEN r[j] ELSE r[j + 1]]
+
+CDrainLike(from) ==    \* Col/drain, and the second look of the repaired try_recv (from = "check")
+  /\ cphC = from /\ cphC' = "check" /\ ci > 0 /\ reg' = reg /\ ci' = ci
+  /\ (from = "check" => tst[reg[ci]] = "dead" /\ FixRecv /\ ringC[reg[ci]] # <<>>)
+  /\ batchC' = batchC \o ringC[reg[ci]] /\ ringC' = [ringC EXCEPT ![reg[ci]] = <<>>]
+  /\ UNCHANGED <<consumed, destroyed, own>>
+CAfter == (cphC' = "drain" /\ ci' <= Len(reg')) \/ (cphC' = "process" /\ ci' = 0)
+CKeep ==
+  /\ cphC = "check" /\ tst[reg[ci]] # "dead" /\ reg' = reg /\ CAfter /\ (cphC' = "drain" => ci' = ci + 1)
+  /\ batchC' = batchC /\ ringC' = ringC /\ UNCHANGED <<consumed, destroyed, own>>
+CRemove ==
+  /\ cphC = "check" /\ tst[reg[ci]] = "dead" /\ (FixRecv => ringC[reg[ci]] = <<>>)
+  /\ reg' = Without(reg, ci) /\ CAfter /\ (cphC' = "drain" => ci' = ci)
+  /\ destroyed' = destroyed \cup Rng(ringC[reg[ci]]) /\ ringC' = [ringC EXCEPT ![reg[ci]] = <<>>]
+  /\ batchC' = batchC /\ UNCHANGED <<consumed, own>>
+CEnter == cphC = "idle" /\ cphC' \in {"drain", "process"} /\ batchC' = batchC /\ ringC' = ringC /\ UNCHANGED <<reg, consumed, destroyed>>
+CProcess == cphC = "process" /\ cphC' = "idle" /\ consumed' = consumed \o batchC /\ batchC' = <<>> /\ ringC' = ringC /\ UNCHANGED <<reg, destroyed>>
+\* producers only append to their ring (or register a receiver at the end of the registry)
+CProducer == /\ UNCHANGED <<cphC, ci, batchC, consumed, destroyed, own>>
+             /\ \A t \in Threads : IsPrefix(ringC[t], ringC'[t])
+             /\ IsPrefix(reg, reg')
+CoarseNext == CDrainLike("drain") \/ CDrainLike("check") \/ CKeep \/ CRemove \/ CEnter \/ CProcess \/ CProducer
+CoarseSpec == [][CoarseNext]_coarseVars
 
 ----------------------------------------------------------------------------
 (* liveness (under Fairness) *)
